@@ -17,7 +17,7 @@ mkdir -p "$tmp/tree" "$tmp/v"
 # the current working tree without git metadata and without anything ignored by the build
 (cd /repo && tar --exclude=.git -cf - go.mod go.sum server pbx 2>/dev/null) | tar -xf - -C "$tmp/tree"
 cp /verif/known_findings.json "$tmp/v/"
-viol() { /verif/bin/verifchk check "$id" --repo "$tmp/tree" --verif "$tmp/v" 2>&1 | grep "^VIOLATION rule" | sed 's/ at [^ ]*:[0-9]*:/ :/' | sort -u; }
+viol() { /verif/bin/verifchk check "$id" --repo "$tmp/tree" --verif "$tmp/v" 2>&1 | grep -a "^VIOLATION rule" | sed 's/ at [^ ]*:[0-9]*:/ :/' | sort -u; }
 viol > "$tmp/base.txt"
 applied=0; skipped=0; sd=0; sm=0; rs=0; ra=0; lines=""
 try() { # $1 patch  -> 0 applied, 1 not
@@ -38,7 +38,7 @@ for d in /verif/seeded/${id}_*/; do
     (cd "$tmp/tree" && git apply -R "$d/patch.diff" 2>/dev/null)
   else skipped=$((skipped+1)); lines="$lines\nSELFTEST seed $name: skipped (does not apply to / build on the current tree)"; fi
 done
-for d in /verif/refactors/r${id}_*/ /verif/refactors/h${id}_*/ /verif/refactors/g${id}_*/ /verif/refactors/k${id}_*/ /verif/refactors/m${id}_*/ /verif/refactors/n${id}_*/ /verif/refactors/p${id}_*/ /verif/refactors/q${id}_*/ /verif/refactors/t${id}_*/; do
+for d in /verif/refactors/r${id}_*/ /verif/refactors/h${id}_*/ /verif/refactors/g${id}_*/ /verif/refactors/k${id}_*/ /verif/refactors/m${id}_*/ /verif/refactors/n${id}_*/ /verif/refactors/p${id}_*/ /verif/refactors/q${id}_*/ /verif/refactors/t${id}_*/ /verif/refactors/u${id}_*/; do
   [ -f "$d/patch.diff" ] || continue
   name=$(basename "$d")
   if try "$d/patch.diff"; then
